@@ -345,8 +345,10 @@ theorem C20_stakes_change_only_by_staking_messages (e : Env) (y : Sys) (op : Op)
   case didupdate m => exact did _ (Or.inr (Or.inr ⟨m, rfl⟩))
   all_goals (first | rfl | exact storage _ rfl)
 
-/-- **C01**: no operation changes the node parameters; height and seed move only by `advance` -/
-theorem C01_parameters_never_change (e : Env) (y : Sys) (op : Op) : (step e y op).2.st.params = y.st.params := by
+/-- **C01**: no transaction and no blocker changes the node parameters — only a governance parameter change does (the model has one:
+    the fishmen list); height and seed move only by `advance` -/
+theorem C01_parameters_never_change (e : Env) (y : Sys) (op : Op) (hg : ∀ l, op ≠ .govfishmen l) :
+    (step e y op).2.st.params = y.st.params := by
   have storage : ∀ o, isStorageOp o = true → (stepC e y.st o).2.params = y.st.params := by
     intro o ho
     have := storage_ops_fixed e y.st o ho
@@ -377,6 +379,7 @@ theorem C01_parameters_never_change (e : Env) (y : Sys) (op : Op) : (step e y op
     have := redelegate_keepsStakePart e y.st y.global c v w a
     unfold keepsStakePart at this
     split <;> simp_all [stakePart]
+  case govfishmen l => exact absurd rfl (hg l)
   case payaddr m => exact did _ (Or.inl ⟨m, rfl⟩)
   case binding m => exact did _ (Or.inr (Or.inl ⟨m, rfl⟩))
   case didupdate m => exact did _ (Or.inr (Or.inr ⟨m, rfl⟩))
